@@ -39,6 +39,9 @@ type NormalEstimator struct {
   sum_g     []float64
   sum_m   [][]float64
   sum_s [][][]float64
+  // largest log-weight seen by each thread; the partial sums of a thread are
+  // relative to it
+  max_g     []float64
   gamma_max float64
 }
 
@@ -91,7 +94,9 @@ func (obj *NormalEstimator) Initialize(p ThreadPool) error {
   obj.sum_g = make(    []float64, p.NumberOfThreads())
   obj.sum_m = make(  [][]float64, p.NumberOfThreads())
   obj.sum_s = make([][][]float64, p.NumberOfThreads())
+  obj.max_g = make(    []float64, p.NumberOfThreads())
   for i := 0; i < p.NumberOfThreads(); i++ {
+    obj.max_g[i] = math.Inf(-1)
     obj.sum_g[i] = 0.0
     obj.sum_m[i] = make(  []float64, obj.n)
     obj.sum_s[i] = make([][]float64, obj.n)
@@ -108,18 +113,31 @@ func (obj *NormalEstimator) NewObservation(x ConstVector, gamma ConstScalar, p T
     return fmt.Errorf("x has invalid dimension (expected dimension `%d' but data has dimension `%d')", obj.n, x.Dim())
   }
   id := p.GetThreadId()
-  if gamma == nil {
-    obj.sum_g[id] += 1.0
+  // log-weight of this observation
+  lg := 0.0
+  if gamma != nil {
+    lg = gamma.GetFloat64() - obj.gamma_max
+  }
+  if math.IsInf(lg, -1) {
+    // weight zero
+    return nil
+  }
+  // keep the partial sums relative to the largest log-weight seen so far, so
+  // that weights which are all tiny (or huge) neither underflow to zero nor
+  // overflow, whatever the order in which the observations arrive
+  if lg > obj.max_g[id] {
+    f := math.Exp(obj.max_g[id] - lg)
+    obj.sum_g[id] *= f
     for i := 0; i < obj.n; i++ {
-      xi := x.ConstAt(i).GetFloat64()
-      obj.sum_m[id][i] += xi
+      obj.sum_m[id][i] *= f
       for j := 0; j < obj.n; j++ {
-        xj := x.ConstAt(j).GetFloat64()
-        obj.sum_s[id][i][j] += xi*xj
+        obj.sum_s[id][i][j] *= f
       }
     }
-  } else {
-    g := math.Exp(gamma.GetFloat64() - obj.gamma_max)
+    obj.max_g[id] = lg
+  }
+  {
+    g := math.Exp(lg - obj.max_g[id])
     obj.sum_g[id] += g
     for i := 0; i < obj.n; i++ {
       xi := x.ConstAt(i).GetFloat64()
@@ -137,15 +155,30 @@ func (obj *NormalEstimator) NewObservation(x ConstVector, gamma ConstScalar, p T
  * -------------------------------------------------------------------------- */
 
 func (obj *NormalEstimator) estimateParameters() (Vector, Matrix, int) {
-  sum_g := obj.sum_g[0]
-  sum_m := obj.sum_m[0]
-  sum_s := obj.sum_s[0]
-  for k := 1; k < len(obj.sum_m); k++ {
-    sum_g += obj.sum_g[k]
+  // bring the partial sums of all threads to a common scale
+  max_g := math.Inf(-1)
+  for k := 0; k < len(obj.max_g); k++ {
+    if max_g < obj.max_g[k] {
+      max_g = obj.max_g[k]
+    }
+  }
+  sum_g := 0.0
+  sum_m := make(  []float64, obj.n)
+  sum_s := make([][]float64, obj.n)
+  for i := 0; i < obj.n; i++ {
+    sum_s[i] = make([]float64, obj.n)
+  }
+  for k := 0; k < len(obj.sum_m); k++ {
+    if math.IsInf(obj.max_g[k], -1) {
+      // this thread has not seen any observation
+      continue
+    }
+    f := math.Exp(obj.max_g[k] - max_g)
+    sum_g += f*obj.sum_g[k]
     for i := 0; i < obj.n; i++ {
-      sum_m[i] += obj.sum_m[k][i]
+      sum_m[i] += f*obj.sum_m[k][i]
       for j := 0; j < obj.n; j++ {
-        sum_s[i][j] += obj.sum_s[k][i][j]
+        sum_s[i][j] += f*obj.sum_s[k][i][j]
       }
     }
   }
@@ -163,7 +196,8 @@ func (obj *NormalEstimator) estimateParameters() (Vector, Matrix, int) {
   obj.sum_g = nil
   obj.sum_m = nil
   obj.sum_s = nil
-  return mu, si, int(math.Round(sum_g))
+  obj.max_g = nil
+  return mu, si, int(math.Round(sum_g*math.Exp(max_g)))
 }
 
 func (obj *NormalEstimator) updateEstimate() error {
